@@ -10,7 +10,7 @@ from typing import TYPE_CHECKING
 # Third Party Imports
 from numpy import array
 from numpy import max as np_max
-from numpy import ones_like, spacing, zeros
+from numpy import finfo, ones_like, spacing, zeros
 from scipy.integrate import solve_ivp
 
 # Local Imports
@@ -55,6 +55,15 @@ def checkEarthCollision(r_norm: float):
     if r_norm < Earth.radius + Earth.atmosphere:
         msg = "An RSO is within 100km of Earth surface"
         resonaateLogWarning(msg)
+
+
+def _restartIncrement(time: float) -> float:
+    """Time increment that restarts integration just past an event at `time`, so it doesn't re-trigger.
+
+    One unit in the last place isn't enough near `time == 0`: the event functions treat every time
+    within ``finfo(float).resolution`` of the event as being at the event.
+    """
+    return max(spacing(time), 2 * finfo(float).resolution)
 
 
 class Celestial(Dynamics, metaclass=ABCMeta):
@@ -200,7 +209,7 @@ class Celestial(Dynamics, metaclass=ABCMeta):
             )
 
             # Retrieve final time, this should auto-exit the loop if fully-integrated
-            initial_time = solution.t[-1] + spacing(solution.t[-1])
+            initial_time = solution.t[-1] + _restartIncrement(solution.t[-1])
 
         # Return final state from the solver
         return (
@@ -315,7 +324,7 @@ class Celestial(Dynamics, metaclass=ABCMeta):
             # [NOTE]: Need to increment time a tiny bit, so events don't re-trigger.
             # This also protects events that occur on a timestep. The event is applied
             # at the end of the previous timestep, rather than the beginning of current
-            current_time += spacing(current_time)
+            current_time += _restartIncrement(current_time)
 
             # Save states to output variable, checks for case where event occurs before times[1]
             final_states[..., num_times : num_times + n_t] = states
